@@ -62,6 +62,11 @@ func oracle(c Case, o *h.Obs) *h.Fail {
 func TestC09(t *testing.T) {
 	c := h.New(t, "C09")
 	defer c.Finish()
+	if c.Thorough() {
+		// the thorough tier also explores larger programs
+		profile.MaxDepth++
+		profile.MaxStmts += 2
+	}
 	c.Rule("constructive generator, profile 'errors': nested try/catch[/finally] with and without catch variable, functions with defer statements in straight code, branches and loops, deferred host probes / script functions / closure literals (which may raise or contain try/defer), throw of strings/numbers/lists, runtime errors (pfail, undefined name, index out of range), return at every point; non-trivial = an error/return leaves an invocation with >=2 pending defers, or a deferred callee raises, or a try runs inside a deferred callee, or an error is caught in a run that also runs defers; distinct by source text")
 	h.Run(c, "errors", c.N(12000, 120000), gen, oracle)
 }
